@@ -96,7 +96,14 @@ class Stores:
                 k = sqlite3.connect(path)
                 k.execute("SELECT COUNT(*) FROM events").fetchall()
                 self._keep.append(k)
-        return self._sq[backend]
+        st = self._sq[backend]
+        if backend == "sqlite1":
+            try:
+                st._persistent_conn.execute("SELECT 1")
+            except Exception:                    # the code under test closed its own connection: fresh store
+                del self._sq[backend]
+                return self.get(backend)
+        return st
 
     def close(self):
         for k in self._keep:
@@ -231,6 +238,9 @@ class System:
         t = self.loop.create_task(self.store.query_events(self.run))
         self.loop.quiesce()
         _, _, ab, _ = mods()
+        if t.exception() is not None:          # recorded, judged by the observer (clause no_error)
+            self.errors.append("query_events: %r" % t.exception())
+            return []
         return [[int(e.sequence), int(e.event.value.get("n", -1)),
                  1 if ab.AbstractWorkflowStore._is_terminal_event(e) else 0] for e in t.result()]
 
